@@ -31,13 +31,17 @@ class AnchorLost(Exception):
 
 # --------------------------------------------------------------------------- source files
 class Source:
-    def __init__(self, relpath):
+    def __init__(self, relpath, text=None, line_base=0):
         self.rel = relpath
         self.path = os.path.join(REPO, relpath)
-        try:
-            self.text = open(self.path, encoding="utf-8").read()
-        except OSError as e:
-            raise AnchorLost("cannot read %s: %s" % (self.path, e))
+        self.line_base = line_base   # a synthetic source (R10c: an expression wrapped as a function) reports the lines of the file it was cut from
+        if text is not None:
+            self.text = text
+        else:
+            try:
+                self.text = open(self.path, encoding="utf-8").read()
+            except OSError as e:
+                raise AnchorLost("cannot read %s: %s" % (self.path, e))
         self.toks = lex(self.text)
         self.code = [k for k, t in enumerate(self.toks) if t.kind in CODE]
         self._line_starts = [0]
@@ -47,7 +51,7 @@ class Source:
 
     def line_of(self, off):
         import bisect
-        return bisect.bisect_right(self._line_starts, off)
+        return bisect.bisect_right(self._line_starts, off) + self.line_base
 
     # ---- item scan: top level and inside impl blocks (skipping cfg(test) modules)
     def _scan_items(self):
@@ -1075,19 +1079,18 @@ class Unit:
                 raise AnchorLost("%s: fn %s: expression at `%s` has no block" % (rel, fn_name, at))
             expr = s.text_of(start, end)
             src_line = s.line_of(toks[start].start)
-            new_expr = rewrite_builtin(expr, self.counts, mutable=True)
-            for lno, ln in block:
-                if ln.startswith("//@rewrite"):
-                    frm, to, expect, _w = _parse_rewrite(ln, self.vc_path, lno - 1)
-                    new_expr = apply_literal_rewrite(new_expr, frm, to, expect, self.counts, name_hint(variant))
-            for (hd, extra, norms) in self.unit_call_extra:
-                new_expr = append_call_args(new_expr, hd, extra, self.counts, norms)
             xparams = next((o.split("=", 1)[1] for o in opts if o.startswith("params=")), "")
             xret = next((o.split("=", 1)[1] for o in opts if o.startswith("ret=")), None)
-            sig = "fn %s(%s)%s" % (variant, xparams, (" -> (r: %s)" % xret) if xret else "")
+            # the expression is wrapped as a function of its own (a synthetic source item) and goes through the SAME pipeline as any extracted function: lock elision, rewrites, ghost
+            # insertions, loop invariants.  Its text is the expression verbatim; the enclosing function's locals it uses are the parameters named in params=
+            synth = "fn %s(%s)%s {\n%s\n}\n" % (variant, xparams, (" -> %s" % xret) if xret else "", expr)
+            srel = "%s#%s" % (rel, variant)
+            _sources[srel] = Source(srel, text=synth, line_base=src_line - 2)
             self.dropped.append("expression `%s ..` of %s (%s:%d): R10c extracted as fn %s; the enclosing function's locals `%s` become parameters" % (at, fn_name, rel, src_line, variant, xparams))
             self.counts.add("R10c.expression-extracted-as-function")
-            return self._emit_arm_fn(rel, variant, variant, sig, block, new_expr, expr, src_line, "%s:expression `%s` of %s (source)" % (rel, at, fn_name))
+            fopts = [o for o in opts if not o.startswith(("at=", "params=", "ret="))]
+            if xret and not any(o.startswith("ret=") for o in fopts): fopts.append("ret=r")
+            return self._do_fn(srel, variant, fopts, block)
         # locate `Request :: variant`
         pos = None
         for ci in range(len(code) - 4):
